@@ -158,3 +158,86 @@ def natdist(c1, c2):
 def is_natural_pc(i):
     """pitch classes of the seven naturals"""
     return i == 0 or i == 2 or i == 4 or i == 5 or i == 7 or i == 9 or i == 11
+
+
+# ------------------------------------------------------------------ keys (computed from the circle of fifths)
+
+def _spell(letter, pcv):
+    """letter + the accidentals that put it on pitch class pcv (nearest spelling)"""
+    acc = ((pcv - base(letter) + 6) % 12) - 6
+    return letter + ("#" * acc if acc > 0 else "b" * (-acc))
+
+
+@primitive
+def key_of_signature(n, minor):
+    """the major (or relative minor) key with n sharps (n > 0) / -n flats (n < 0), -7 <= n <= 7"""
+    steps = n + (3 if minor else 0)          # the relative minor lies three fifths up
+    letter = LETTERS[(4 * steps) % 7]       # a fifth is four letters up
+    acc = (steps + 1) // 7                   # ... F C G D A E B | F# C# ... : seven fifths add one sharp
+    name = letter + ("#" * acc if acc > 0 else "b" * (-acc))
+    return name.lower() if minor else name
+
+
+@primitive
+def all_keys():
+    return tuple(key_of_signature(n, m) for n in range(-7, 8) for m in (False, True))
+
+
+KEYS30 = all_keys()
+MAJOR15 = tuple(key_of_signature(n, False) for n in range(-7, 8))
+MINOR15 = tuple(key_of_signature(n, True) for n in range(-7, 8))
+
+
+def is_key(k):
+    return k in KEYS30
+
+
+def is_major_key(k):
+    return k in MAJOR15
+
+
+def is_minor_key(k):
+    return k in MINOR15
+
+
+@primitive
+def key_sig(key):
+    """signature number of a key: sharps positive, flats negative"""
+    for n in range(-7, 8):
+        if key_of_signature(n, False) == key or key_of_signature(n, True) == key:
+            return n
+    raise ValueError(key)
+
+
+@primitive
+def key_notes(key):
+    """the seven notes of a major / natural minor key, from its step pattern"""
+    minor = key[0].islower()
+    pattern = (2, 1, 2, 2, 1, 2, 2) if minor else (2, 2, 1, 2, 2, 2, 1)
+    tonic = key[0].upper() + key[1:]
+    p = (base(tonic[0]) + tonic[1:].count("#") - tonic[1:].count("b")) % 12
+    # spelling of each degree follows the key signature: within a key every letter is used once, and
+    # the accidental is whatever puts that letter on the pattern's pitch class (|acc| <= 1 for these 30 keys,
+    # except that nearest-spelling is unique because |acc| <= 1 < 6)
+    out = []
+    for i in range(7):
+        out.append(_spell(lup(tonic[0], i), p))
+        p = (p + pattern[i]) % 12
+    return out
+
+
+@primitive
+def key_accidentals(key):
+    """accidentals of the key signature in circle-of-fifths order"""
+    n = key_sig(key)
+    sharps_order = "FCGDAEB"
+    if n > 0:
+        return [c + "#" for c in sharps_order[:n]]
+    if n < 0:
+        return [c + "b" for c in sharps_order[::-1][:-n]]
+    return []
+
+
+def semis(a, b):
+    """semitones from name a up to name b, 0..11"""
+    return (pc(b) - pc(a)) % 12
